@@ -4,9 +4,11 @@
 //!   hx concrete <scenario> <seed> <in.json> <out.json>
 //!        concrete executions (either build): in.json = [{"id":..,"assignment":{var:"value"}}..];
 //!        writes per run the event log and the obligations evaluated concretely
+mod hist;
 mod mon;
 mod props;
 mod sx;
+mod tpl;
 mod world;
 
 use serde_json::{json, Value};
@@ -63,7 +65,7 @@ fn report_json(sc: &Scenario, seed: u64, rep: &Report, wall_ms: u128) -> Value {
     json!({
         "scenario": sc.name, "prop": sc.prop, "desc": sc.desc, "seed": seed,
         "paths": rep.paths, "infeasible": rep.infeasible, "diverged": rep.diverged, "aborted": rep.aborted,
-        "decisions": rep.decisions, "interval_decided": rep.interval_decided,
+        "decisions": rep.decisions, "interval_decided": rep.interval_decided, "search_hits": rep.search_hits, "search_evals": rep.search_evals,
         "queries": rep.queries, "solver_ms": rep.solver_ms as u64, "wall_ms": wall_ms as u64,
         "unknown_feasibility": rep.unknown_feasibility, "path_cap_hit": rep.path_cap_hit, "time_cap_hit": rep.time_cap_hit,
         "solver_errors": rep.solver_errors,
